@@ -397,6 +397,9 @@ def main():
     payload = json.load(sys.stdin)
     sc.get_logger().setLevel('ERROR')
     install_recorders()
+    # earlier callers wrecked every graph the package handed them (see _poison.py); no effect unless state is shared
+    import _poison
+    _poison.poison_graph_factories()
     groups = payload['groups']
     nproc = int(payload.get('nproc', 1))
     if nproc > 1 and len(groups) > 1:
